@@ -1101,34 +1101,39 @@ namespace Pistache::Http::Experimental
 
     void Client::processRequestQueue()
     {
-        Guard guard(queuesLock);
-
-        if (stopProcessPequestsQueues)
-            return;
-
-        for (auto& queues : requestsQueues)
+        for (;;)
         {
-            for (;;)
+            std::shared_ptr<Connection> conn;
+            std::shared_ptr<Connection::RequestData> data;
             {
-                const auto& domain = queues.first;
-                auto conn          = pool.pickConnection(domain);
-                if (!conn)
-                    break;
+                Guard guard(queuesLock);
 
-                auto& queue = queues.second;
-                std::shared_ptr<Connection::RequestData> data;
-                if (!queue.dequeue(data))
+                if (stopProcessPequestsQueues)
+                    return;
+
+                for (auto& queues : requestsQueues)
                 {
-                    pool.releaseConnection(conn);
-                    break;
-                }
+                    conn = pool.pickConnection(queues.first);
+                    if (!conn)
+                        continue;
 
-                conn->performImpl(data->request, std::move(data->resolve),
-                                  std::move(data->reject), [this, conn]() {
-                                      pool.releaseConnection(conn);
-                                      processRequestQueue();
-                                  });
+                    if (queues.second.dequeue(data))
+                        break;
+
+                    pool.releaseConnection(conn);
+                    conn = nullptr;
+                }
             }
+            if (!conn)
+                return;
+
+            // Not under queuesLock: when the request can not be sent,
+            // performImpl() runs onDone at once, which comes back here
+            conn->performImpl(data->request, std::move(data->resolve),
+                              std::move(data->reject), [this, conn]() {
+                                  pool.releaseConnection(conn);
+                                  processRequestQueue();
+                              });
         }
     }
 
